@@ -8,6 +8,7 @@ use crate::build_bytes::*;
 use crate::build_faults::*;
 use crate::build_gen::*;
 use crate::build_render::*;
+use crate::build_slices::slice_decode;
 use crate::common::{guarded, Rng, Sink};
 use crate::strings;
 use crate::tree::*;
@@ -205,6 +206,14 @@ pub fn case_mode(ctx: &mut Ctx, xml: &str, fragment: bool, ex: &Expect) {
             }
             let mut c17 = BTreeSet::new();
             generic_spans(&vocab, seen, xml, &dump, &mut c17);
+            {
+                // slices and their decoding, from the source text and the tree alone
+                let mut st = vec![];
+                slice_decode(&vocab, seen, xml, &mut c17, &mut st);
+                for s in st {
+                    ctx.sink.stat(&s);
+                }
+            }
             if let Some(r) = ex.rendered {
                 if expects_here(r) && ex.fault.is_none() {
                     let mut c02 = BTreeSet::new();
@@ -390,6 +399,13 @@ pub const CORPUS: &[&str] = &[
     "<a xmlns:xmlns='zzz'/>",
     "<a xmlns:p=''><p:b/></a>",
     "<a xmlns:xml='http://www.w3.org/XML/1998/namespace' xml:id='i'/>",
+    // C17 slices: the witness of Props/C17 (sliceWitness), runs that start / end inside a CDATA
+    // section or contain an empty one, names written with a leading colon
+    "<p:a xmlns:p=\"u\" b=\"x&#10;y\">t&lt;<![CDATA[c]]><!--k--><?pi d?></p:a>",
+    "<a><![CDATA[x]]>y<![CDATA[]]>&amp;<![CDATA[z\r]]></a>",
+    "<a>x<![CDATA[]]></a>",
+    "<:a/>",
+    "<a :b='1'/>",
 ];
 
 const SNIPPETS: &[&str] = &[
